@@ -24,7 +24,7 @@ func StName(s model.ShipMessageExchangeState) string {
 }
 
 
-var IDs = map[string]string{"A": "SHIP-A", "B": "SHIP-B", "empty": ""}
+var IDs = map[string]string{"A": "SHIP-A", "B": "SHIP-B", "a": "ship-a", "empty": ""}
 
 func AbsID(s string) string {
 	switch s {
@@ -32,6 +32,8 @@ func AbsID(s string) string {
 		return "A"
 	case "SHIP-B", "shipid-B":
 		return "B"
+	case "ship-a", "SHIPID-a":
+		return "a"
 	case "":
 		return "empty"
 	}
